@@ -114,7 +114,7 @@ impl Mach {
         for r in [(VEC_LO, VEC_HI), (DRAM_LO, DRAM_HI), (IO1_LO, IO1_HI), (RAM_LO, RAM_HI), (IO2_LO, IO2_HI)] {
             for a in r.0..=r.1 {
                 let p = pristine(a);
-                *self.real_slot(a).unwrap() = p;
+                self.store_real(a, p);
                 *self.shadow_slot(a).unwrap() = p;
             }
         }
@@ -129,6 +129,19 @@ impl Mach {
     pub fn real_slot(&mut self, a: u32) -> Option<&mut u8> {
         let b = &mut self.cpu.bus;
         slot(&mut b.exception_handling_vector, &mut b.dram, &mut b.io_registrs1, &mut b.memory[..], &mut b.io_registrs2, a)
+    }
+
+    /// Store into the real machine.  Bus-controller and other non-port registers of the first register block
+    /// are written through `Bus::write`, the path the emulator itself (init_registers) and its own tests use,
+    /// so that an implementation that decodes these registers when they are written stays coherent; plain
+    /// memory is written into the storage arrays directly, as the ELF loader does.
+    #[inline]
+    pub fn store_real(&mut self, a: u32, v: u8) {
+        if (IO1_LO..=IO1_HI).contains(&a) && !sem::is_port_reg(a) {
+            let _ = self.cpu.bus.write(a, v);
+        } else if let Some(s) = self.real_slot(a) {
+            *s = v;
+        }
     }
 
     #[inline]
@@ -178,7 +191,7 @@ impl Mach {
             return;
         }
         self.pre_check(a);
-        *self.real_slot(a).unwrap() = v;
+        self.store_real(a, v);
         *self.shadow_slot(a).unwrap() = v;
         self.dirty.push(a);
     }
@@ -189,7 +202,7 @@ impl Mach {
             return;
         }
         self.pre_check(a);
-        *self.real_slot(a).unwrap() = v;
+        self.store_real(a, v);
         *self.shadow_slot(a).unwrap() = v;
         self.sticky.push((a, v));
         self.sticky_gen += 1;
@@ -236,7 +249,7 @@ impl Mach {
         let mut touched_sticky = false;
         while let Some(a) = self.dirty.pop() {
             let p = pristine(a);
-            *self.real_slot(a).unwrap() = p;
+            self.store_real(a, p);
             *self.shadow_slot(a).unwrap() = p;
             if a >= self.sticky_lo && a <= self.sticky_hi {
                 touched_sticky = true;
@@ -246,7 +259,7 @@ impl Mach {
             // a case overwrote a sticky byte (e.g. a store into the code): put the sticky value back
             for k in 0..self.sticky.len() {
                 let (a, v) = self.sticky[k];
-                *self.real_slot(a).unwrap() = v;
+                self.store_real(a, v);
                 *self.shadow_slot(a).unwrap() = v;
             }
         }
@@ -258,7 +271,7 @@ impl Mach {
         self.sticky_hi = 0;
         while let Some((a, _)) = self.sticky.pop() {
             let p = pristine(a);
-            *self.real_slot(a).unwrap() = p;
+            self.store_real(a, p);
             *self.shadow_slot(a).unwrap() = p;
         }
     }
@@ -299,6 +312,12 @@ impl Mach {
         b.exception_handling_vector.copy_from_slice(&s.vec);
         b.io_registrs1.copy_from_slice(&s.io1);
         b.io_registrs2.copy_from_slice(&s.io2);
+        for a in IO1_LO..=IO1_HI {
+            if !sem::is_port_reg(a) {
+                let v = self.sh.io1[(a - IO1_LO) as usize];
+                let _ = self.cpu.bus.write(a, v);
+            }
+        }
         self.stray = None;
     }
 }
